@@ -747,4 +747,221 @@ theorem residual_iff_energy {w1 w2 xi u mu : ℝ} (hxi : 0 < xi) (hu : 0 < u)
   · intro h; field_simp at h ⊢; linear_combination h
 
 
+/-! ## From flux conservation to the general solver's `v₊v₋`, `v₊/v₋` form -/
+
+/-- Energy- and momentum-flux conservation solved for the four combinations used by the general solver
+(`F = w₊γ₊²v₊` is the energy flux, `e = w − p`). -/
+theorem flux_solved {wH pH wL pL vp vm : ℝ} (hvp : vp ≠ 0) (hvm : vm ≠ 0)
+    (hvp1 : 1 - vp ^ 2 ≠ 0) (hvm1 : 1 - vm ^ 2 ≠ 0)
+    (E : wH * gammaSq vp * vp = wL * gammaSq vm * vm)
+    (M : wH * gammaSq vp * vp ^ 2 + pH = wL * gammaSq vm * vm ^ 2 + pL) :
+    pH - pL = wH * gammaSq vp * vp * (vm - vp) ∧
+    (wH - pH) - (wL - pL) = wH * gammaSq vp * vp * (vm - vp) / (vp * vm) ∧
+    (wL - pL) + pH = wH * gammaSq vp * vp * (1 - vp * vm) / vm ∧
+    (wH - pH) + pL = wH * gammaSq vp * vp * (1 - vp * vm) / vp := by
+  have hvm1' : 1 - vm * vm ≠ 0 := by rwa [← pow_two]
+  have hvp1' : 1 - vp * vp ≠ 0 := by rwa [← pow_two]
+  have hwL : wL = wH * gammaSq vp * vp * (1 - vm * vm) / vm := by
+    unfold gammaSq at E ⊢; field_simp at E ⊢; linarith
+  have hpL : pL = pH + wH * gammaSq vp * vp * vp - wH * gammaSq vp * vp * vm := by
+    have : wL * gammaSq vm * vm ^ 2 = (wL * gammaSq vm * vm) * vm := by ring
+    rw [this, ← E] at M; linarith
+  rw [hpL, hwL]; unfold gammaSq
+  refine ⟨?_, ?_, ?_, ?_⟩ <;> field_simp <;> ring
+
+/-- If `(v₊, v₋, T₊, T₋)` conserve energy and momentum flux for an EOS with `e = w − p`, the general
+solver's `vpvmAndvpovm` returns `(v₊v₋, v₊/v₋)`. -/
+theorem vpvmAndvpovm_of_flux {s : HydroP} {vp vm Tp Tm : ℝ}
+    (heH : s.eHighT Tp = s.wHighT Tp - s.pHighT Tp) (heL : s.eLowT Tm = s.wLowT Tm - s.pLowT Tm)
+    (hvp : vp ≠ 0) (hvm : vm ≠ 0) (hvp1 : 1 - vp ^ 2 ≠ 0) (hvm1 : 1 - vm ^ 2 ≠ 0)
+    (hne : vp ≠ vm) (hpm : 1 - vp * vm ≠ 0) (hw : s.wHighT Tp ≠ 0)
+    (E : s.wHighT Tp * gammaSq vp * vp = s.wLowT Tm * gammaSq vm * vm)
+    (M : s.wHighT Tp * gammaSq vp * vp ^ 2 + s.pHighT Tp
+          = s.wLowT Tm * gammaSq vm * vm ^ 2 + s.pLowT Tm) :
+    vpvmAndvpovm s Tp Tm = (vp * vm, vp / vm) := by
+  obtain ⟨h1, h2, h3, h4⟩ := flux_solved hvp hvm hvp1 hvm1 E M
+  have hg : gammaSq vp ≠ 0 := by unfold gammaSq; rw [← pow_two]; exact one_div_ne_zero hvp1
+  have hF : s.wHighT Tp * gammaSq vp * vp ≠ 0 := by positivity
+  have hd : vm - vp ≠ 0 := sub_ne_zero.mpr (Ne.symm hne)
+  have hne' : s.eHighT Tp ≠ s.eLowT Tm := by
+    rw [heH, heL, ← sub_ne_zero, h2]; positivity
+  simp only [vpvmAndvpovm, ne_eq, hne', not_false_eq_true, if_true]
+  rw [heH, heL, h1, h2, h3, h4]
+  generalize s.wHighT Tp * gammaSq vp * vp = F at hF
+  congr 1 <;> field_simp
+
+/-- The numerator of `d(v₊²)/dT₋` used by the general `findJouguetVelocity`, evaluated on a state that
+conserves both fluxes: it is proportional to `e₋' v₋² − p₋'`, i.e. it vanishes iff `v₋² = dp₋/de₋`. -/
+theorem vpDerivNum_of_flux {s : HydroP} {vp vm Tp Tm : ℝ}
+    (heL : s.eLowT Tm = s.wLowT Tm - s.pLowT Tm)
+    (hvp : vp ≠ 0) (hvm : vm ≠ 0) (hvp1 : 1 - vp ^ 2 ≠ 0) (hvm1 : 1 - vm ^ 2 ≠ 0)
+    (E : s.wHighT Tp * gammaSq vp * vp = s.wLowT Tm * gammaSq vm * vm)
+    (M : s.wHighT Tp * gammaSq vp * vp ^ 2 + s.pHighT Tp
+          = s.wLowT Tm * gammaSq vm * vm ^ 2 + s.pLowT Tm) :
+    vpDerivNum s (s.pHighT Tp) (s.wHighT Tp - s.pHighT Tp) Tm
+      = (s.wHighT Tp * gammaSq vp * vp) ^ 3 * (vm - vp) * (1 - vp * vm) * (1 - vp ^ 2) / (vp ^ 2 * vm ^ 2)
+        * (s.deLowT Tm * vm ^ 2 - s.dpLowT Tm) := by
+  obtain ⟨h1, h2, h3, h4⟩ := flux_solved hvp hvm hvp1 hvm1 E M
+  simp only [vpDerivNum]
+  rw [heL, h1, h2, h4, add_comm (s.pHighT Tp), h3]
+  generalize s.wHighT Tp * gammaSq vp * vp = F
+  field_simp
+  ring
+
+
+/-! ## A concrete instance (for non-vacuity examples): `μ = ν = 4`, `a₊ = 3`, `a₋ = 2`, `ε = 1/10`, `Tn = 1` -/
+
+/-- bag-like instance: `cs² = cb² = 1/3`, `αN = 1/30` -/
+noncomputable def q0 : TPar := ⟨3, 2, 1 / 10, 4, 4, 1, 1 / 2, 2⟩
+
+theorem q0_WF : q0.WF := by constructor <;> norm_num [q0]
+
+/-- the template model `__init__` builds from `q0` -/
+noncomputable def t0 : TemplP := q0.templ 0
+
+theorem t0_isTemplate : IsTemplateOf t0 q0.hydro := isTemplateOf_templ _ _
+
+theorem t0_cb2 : t0.cb2 = 1 / 3 := by rw [cb2_eq t0_isTemplate]; norm_num [q0]
+theorem t0_cs2 : t0.cs2 = 1 / 3 := by rw [cs2_eq t0_isTemplate]; norm_num [q0]
+theorem t0_mu : t0.mu = 4 := by rw [mu_eq q0_WF t0_isTemplate]; rfl
+theorem t0_nu : t0.nu = 4 := by rw [nu_eq q0_WF t0_isTemplate]; rfl
+theorem t0_Tnucl : t0.Tnucl = 1 := Tnucl_eq t0_isTemplate
+theorem t0_wN : t0.wN = 4 := by rw [wN_eq t0_isTemplate]; norm_num [q0]
+theorem t0_alN : t0.alN = 1 / 30 := by
+  rw [alN_eq q0_WF t0_isTemplate, t0_wN]; norm_num [q0]
+theorem t0_cb_sq : t0.cb ^ 2 = t0.cb2 := by
+  rw [t0_isTemplate.cb, Real.sq_sqrt]; rw [t0_cb2]; norm_num
+theorem t0_cb_pos : 0 < t0.cb := by
+  rw [t0_isTemplate.cb]; apply Real.sqrt_pos.mpr; rw [t0_cb2]; norm_num
+theorem q0_wH_one : q0.hydro.wHighT 1 = 4 := by norm_num [TPar.hydro, q0]
+theorem t0_wNum : wNum t0 = -(2 / 5) := by unfold wNum; rw [t0_alN, t0_mu, t0_nu]; norm_num
+theorem t0_wDen (al : ℝ) : wDen t0 al = -(12 * al) := by unfold wDen; rw [t0_mu, t0_nu]; ring
+theorem t0_jRad : jRad t0 = 7 / 100 := by unfold jRad; rw [t0_alN, t0_cb2]; norm_num
+
+
+/-! ## More on the Jouguet velocity -/
+
+/-- `cb ≤ vJ` (for `0 ≤ cb`, `cb² = cb2 ≤ 1`, `αN ≥ 0`). -/
+theorem vJ_ge_cb {t : TemplP} (hcb0 : 0 ≤ t.cb) (hc1 : t.cb2 ≤ 1) (hc0 : 0 ≤ t.cb2) (hal : 0 ≤ t.alN) :
+    t.cb ≤ findJouguetVelocity t t.alN := by
+  rw [findJouguetVelocity_eq]
+  have hK : 0 < 1 + 3 * t.cb2 * t.alN := by positivity
+  rw [le_div_iff₀ hK]
+  have hS : 3 * t.cb2 * t.alN ≤ Real.sqrt (jRad t) := by
+    apply Real.le_sqrt_of_sq_le
+    unfold jRad
+    have h1 : 0 ≤ t.alN * (1 - t.cb2) := mul_nonneg hal (by linarith)
+    have h2 : 0 ≤ t.alN * (1 - t.cb2) * (t.cb2 * t.alN) := by positivity
+    nlinarith
+  nlinarith
+
+/-- `vJ < 1` (for `0 ≤ cb < 1`, `cb² = cb2`, `αN ≥ 0`). -/
+theorem vJ_lt_one {t : TemplP} (hcb : t.cb ^ 2 = t.cb2) (hcb0 : 0 ≤ t.cb) (hcb1 : t.cb < 1)
+    (hal : 0 ≤ t.alN) : findJouguetVelocity t t.alN < 1 := by
+  have hc0 : 0 ≤ t.cb2 := by rw [← hcb]; positivity
+  have hc1 : t.cb2 < 1 := by rw [← hcb]; nlinarith
+  have hK : 0 < 1 + 3 * t.cb2 * t.alN := by positivity
+  have hrad : 0 ≤ jRad t := by
+    unfold jRad
+    have : 0 ≤ 1 - t.cb2 := by linarith
+    positivity
+  rw [findJouguetVelocity_eq, div_lt_one hK]
+  have hs := Real.sq_sqrt hrad
+  have hS0 := Real.sqrt_nonneg (jRad t)
+  set S := Real.sqrt (jRad t)
+  have hKcb : 0 < 1 + 3 * t.cb2 * t.alN - t.cb := by
+    have : 0 ≤ 3 * t.cb2 * t.alN := by positivity
+    linarith
+  have hsq : (t.cb * S) ^ 2 < (1 + 3 * t.cb2 * t.alN - t.cb) ^ 2 := by
+    have e : (1 + 3 * t.cb2 * t.alN - t.cb) ^ 2 - (t.cb * S) ^ 2
+        = (1 + 3 * t.cb2 * t.alN) * (1 - t.cb) ^ 2 := by
+      rw [mul_pow, hs]; unfold jRad; rw [← hcb]; ring
+    have : 0 < (1 + 3 * t.cb2 * t.alN) * (1 - t.cb) ^ 2 := by
+      have : 0 < 1 - t.cb := by linarith
+      positivity
+    linarith
+  have := abs_lt_of_sq_lt_sq hsq hKcb.le
+  rw [abs_of_nonneg (mul_nonneg hcb0 hS0)] at this
+  linarith
+
+/-- For `αN ≠ 0` the detonation root is not `vw` itself. -/
+theorem detVm_ne {t : TemplP} {v : ℝ} (hv : v ≠ 0) (hv1 : 1 - v ^ 2 ≠ 0) (hc : t.cb2 ≠ 0)
+    (hal : t.alN ≠ 0) (hd : 0 ≤ detPart t v ^ 2 - 4 * t.cb2 * v ^ 2) : v ≠ detVm t v := by
+  intro h
+  have hr := detVm_root hv hd
+  rw [← h] at hr
+  unfold detPart at hr
+  have : v * (3 * t.cb2 * (1 - v ^ 2) * t.alN) = 0 := by linear_combination hr
+  have : v * (3 * t.cb2 * (1 - v ^ 2) * t.alN) ≠ 0 := by positivity
+  contradiction
+
+/-! ## `wFromAlpha` at `N = 0` -/
+
+/-- If `N = (1−3αN)μ − ν = 0` (on the template EOS: `ε = 0`) the `sign` factor is `0` and `wFromAlpha`
+returns `0` for every `α₊` — the `1e-100` regulators do not give the intended `0/0 → 1`. -/
+theorem wFromAlpha_of_N_zero {t : TemplP} (h : wNum t = 0) (al : ℝ) : wFromAlpha t al = 0 := by
+  unfold wNum at h
+  simp [wFromAlpha, h, WG.R.sign]
+
+/-! ## Constant sound speed in the high-temperature phase -/
+
+/-- `p₊ = w₊/μ − ε` and `cs² = 1/(μ−1)` for all temperatures. -/
+def ConstSoundHigh (s : HydroP) (mu eps : ℝ) : Prop :=
+  ∀ T, s.pHighT T = s.wHighT T / mu - eps ∧ s.csqHighT T = 1 / (mu - 1)
+
+theorem constSoundHigh_hydro {q : TPar} (hq : q.WF) : ConstSoundHigh q.hydro q.mu q.eps := by
+  have hmu : q.mu ≠ 0 := by linarith [hq.mu_gt]
+  intro T
+  refine ⟨?_, rfl⟩
+  simp only [TPar.hydro]; field_simp
+
+/-! ## Efficiency-factor integrand -/
+
+/-- the integrand `ξ² v² γ² w` of `efficiencyFactor` (both solvers) -/
+noncomputable def kappaIntegrand (xi v w : ℝ) : ℝ := xi ^ 2 * v ^ 2 * gammaSq v * w
+
+
+/-! ## Sound speed behind the wall, bundled facts (`ν > 2` ⇔ `cb² < 1`) -/
+
+theorem template_cb_facts {q : TPar} {t : TemplP} (hq : q.WF) (ht : IsTemplateOf t q.hydro)
+    (hnu : 2 < q.nu) :
+    t.cb ^ 2 = t.cb2 ∧ 0 < t.cb ∧ t.cb < 1 ∧ 0 < t.cb2 ∧ t.cb2 < 1 ∧ t.cb2 < t.cb := by
+  have h0 := cb2_pos hq ht
+  have h1 : t.cb2 < 1 := by
+    rw [cb2_eq ht, div_lt_one (by linarith)]; linarith
+  have hsq : t.cb ^ 2 = t.cb2 := by rw [ht.cb, Real.sq_sqrt h0.le]
+  have hpos : 0 < t.cb := by rw [ht.cb]; exact Real.sqrt_pos.mpr h0
+  have hlt : t.cb < 1 := by nlinarith
+  refine ⟨hsq, hpos, hlt, h0, h1, ?_⟩
+  nlinarith
+
+theorem jRad_nonneg {t : TemplP} (hc0 : 0 ≤ t.cb2) (hc1 : t.cb2 ≤ 1) (hal : 0 ≤ t.alN) : 0 ≤ jRad t := by
+  unfold jRad
+  have : 0 ≤ 1 - t.cb2 := by linarith
+  positivity
+
+/-- The template detonation for `vJ ≤ vw < 1`: all side conditions of the junction algebra hold. -/
+theorem det_side_conditions {q : TPar} {t : TemplP} (hq : q.WF) (ht : IsTemplateOf t q.hydro)
+    (hnu : 2 < q.nu) (hal : 0 ≤ t.alN) {vw : ℝ} (hJ : t.vJ ≤ vw) (hvw1 : vw < 1) :
+    0 < vw ∧ 0 ≤ detPart t vw ^ 2 - 4 * t.cb2 * vw ^ 2 ∧ t.cb ≤ detVm t vw ∧ detVm t vw < 1 := by
+  obtain ⟨hsq, hpos, hlt, h0, h1, hlt2⟩ := template_cb_facts hq ht hnu
+  have hK : 0 < 1 + 3 * t.cb2 * t.alN := by positivity
+  have hrad := jRad_nonneg h0.le h1.le hal
+  rw [ht.vJ] at hJ
+  have hcJ := vJ_ge_cb hpos.le h1.le h0.le hal
+  have hvw0 : 0 < vw := by linarith
+  have hpart := detPart_ge hsq hpos.le hK hrad hJ
+  refine ⟨hvw0, detDisc_nonneg hsq hpos.le hK hrad hvw0.le hJ, detVm_ge_cb hvw0 hpart,
+    detVm_lt_one h0 hal (by linarith) hvw1⟩
+
+theorem q0_alphaAt_one : q0.alphaAt 1 = 1 / 30 := by
+  have := alphaAt_Tn t0_isTemplate
+  rw [t0_alN] at this; exact this
+
+theorem t0_vJ_lt_one : t0.vJ < 1 := by
+  rw [t0_isTemplate.vJ]
+  obtain ⟨hsq, hpos, hlt, -⟩ := template_cb_facts q0_WF t0_isTemplate (by norm_num [q0])
+  exact vJ_lt_one hsq hpos.le hlt (by rw [t0_alN]; norm_num)
+
+
 end Lemmas.Template
